@@ -90,6 +90,9 @@ CONTEXTS = {
     "set": "(tuple (set x {C}) x{V})",
     "if": "(if {C} :T :F)",
     "while": "(var n 0) (while {C} (++ n) (if (>= n 2) (break))) (tuple n{V})",
+    # a closure made in the loop body: the compiler throws the loop away and compiles it again as a
+    # recursive function, the condition included; n is then an upvalue
+    "whilec": "(var n 0) (while {C} (++ n) (def k n) ((fn [] k)) (if (>= n 2) (break))) (tuple n{V})",
     "up": "(tuple ((fn [] (set x {C}))) x{V})",       # operands and target are upvalues
     "upt": "((fn [] {C}))",
     "setg": "(tuple (set X {C}) X{V})",               # target is a global (reference cell)
@@ -161,27 +164,26 @@ def all_patterns(n):
 class Tier:
     def __init__(self, quick):
         q = quick
-        # ---- variadic arithmetic / bitwise
-        self.va12 = (["1", "0", "127", "128", "-129", "1.5", "nil", "M1", "M2", "S3", "U5"] if q else
-                     ["1", "0", "-1", "127", "128", "-128", "-129", "1.5", "3e9", "nil", '"s"', "M1", "M2", "S3", "U5"])
-        self.va3 = (["1", "128", "nil", "M1", "U5"] if q else
-                    ["1", "0", "127", "128", "-129", "1.5", "3e9", "nil", '"s"', "M1", "M2", "S3", "U5"])
-        self.va456 = ["1", "M1"] if q else ["1", "128", "M1"]
-        self.va4_extra = [] if q else ["nil", "S3"]
+        # ---- variadic arithmetic / bitwise (arity 0..2: full value x form product)
+        self.va12 = ["1", "0", "-1", "127", "128", "-128", "-129", "1.5", "3e9", "nil", '"s"', "M1", "M2", "S3", "U5"]
+        self.va3 = (["1", "0", "128", "-129", "1.5", "nil", "M1", "U5"] if q else self.va12)
+        self.va4 = ["1", "128", "M1"] if q else ["1", "128", "1.5", "nil", "M1", "S3"]
+        self.va5 = ["1", "M1"] if q else ["1", "128", "nil", "M1"]
+        self.va6 = ["1", "M1"] if q else ["1", "128", "M1"]
         # ---- comparators
-        self.vb12 = (["1", "127", "128", "-129", "1.5", "NAN", "nil", '"s"', "S3", "M1"] if q else
-                     ["1", "0", "127", "128", "-128", "-129", "1.5", "NAN", "nil", '"s"', ":k", "S3", "U5", "M1"])
-        self.vb3 = (["1", "128", "nil", "S3"] if q else
-                    ["1", "0", "127", "128", "-129", "1.5", "nil", '"s"', "S3", "U5", "NAN"])
-        self.vb456 = ["1", "128"] if q else ["1", "128", "nil"]
+        self.vb12 = ["1", "0", "127", "128", "-128", "-129", "1.5", "NAN", "nil", '"s"', ":k", "S3", "U5", "M1"]
+        self.vb3 = (["1", "128", "-129", "1.5", "nil", "S3", "NAN"] if q else self.vb12)
+        self.vb4 = ["1", "128", "nil"] if q else ["1", "128", "1.5", "nil", "S3", "NAN"]
+        self.vb5 = ["1", "128"] if q else ["1", "128", "nil", "S3"]
+        self.vb6 = ["1", "128"] if q else ["1", "128", "nil"]
         # ---- contexts section
         self.vctx = ["1", "nil", "M1"] if q else ["1", "128", "nil", "M1", "S3"]
-        self.vctx3 = ["1"] if q else ["1", "M1"]
-        self.ctxs = ["val", "drop", "set", "if", "while", "up", "upt", "setg", "far", "farset"]
+        self.vctx3 = ["1"] if q else ["1", "nil", "M1"]
+        self.ctxs = ["val", "drop", "set", "if", "while", "whilec", "up", "upt", "setg", "far", "farset"]
         # ---- alias section
-        self.valias = (["x", "v", "M3", "1"] if q else ["x", "v", "vm", "M3", "1", "128", "M2"])
+        self.valias = (["x", "v", "vm", "M3", "1"] if q else ["x", "v", "vm", "M3", "1", "128", "M2"])
         self.alias_max = 3
-        self.valias4 = None if q else ["x", "v", "M3", "1"]
+        self.valias4 = None if q else ["x", "v", "vm", "M3", "1"]
         self.quick = q
 
 
@@ -216,15 +218,13 @@ def variadic_cases(f, tier, bound):
                 yield (f, vs, routes_block(n, all_patterns(n), "T" * n))
     elif bound == 2:
         vals = tier.vb3 if comp else tier.va3
+        pats = LATIN3 if tier.quick else all_patterns(3)
         for vs in product(vals, repeat=3):
-            yield (f, vs, routes_block(3, LATIN3, "TTT"))
+            yield (f, vs, routes_block(3, pats, "TTT"))
     elif bound == 3:
-        vals = tier.vb456 if comp else tier.va456
-        for n in (4, 5, 6):
-            vv = vals
-            if n == 4:
-                vv = vals + [v for v in tier.va4_extra if v not in vals]
-            for vs in product(vv, repeat=n):
+        for n, vals in ((4, tier.vb4 if comp else tier.va4), (5, tier.vb5 if comp else tier.va5),
+                        (6, tier.vb6 if comp else tier.va6)):
+            for vs in product(vals, repeat=n):
                 yield (f, vs, routes_block(n, rot_patterns(n), "T" * n))
 
 
